@@ -138,29 +138,55 @@ theorem execEvm_vl (s : St) (exec : Bool) (tx : TxIn) (r : RunOut) (h : execEvm 
     intro s x
     rw [setAcct_vl, findOrNewAcct_vl]
 
+theorem bind_ok {α β : Type} {e : Except Fail α} {K : α → Except Fail β} {r : β} (h : Except.bind e K = .ok r) :
+    ∃ a, e = .ok a ∧ K a = .ok r := by
+  cases e with
+  | error x => cases h
+  | ok a => exact ⟨a, rfl, h⟩
+
+set_option hygiene false in
+macro "run_tail" : tactic => `(tactic| (
+    obtain ⟨ro, hro, hK⟩ := bind_ok h
+    have hK' : VL r.1 = VL ro.st := by
+      simp only [pure, Except.pure, throw, throwThe, MonadExceptOf.throw] at hK
+      iterate 6 (try any_goals (split at hK))
+      all_goals first
+        | (cases hK; done)
+        | (cases hK; rfl)
+    refine hK'.trans ?_))
+
 theorem runTrx_vl (s : St) (exec : Bool) (height : Int) (tx : TxIn) (rcv : Account) (r : St × Nat × Option String)
     (h : runTrx s exec height tx rcv = .ok r) : VL r.1 = VL s := by
   unfold runTrx at h
-  simp only [bind, Except.bind] at h
-  split at h
-  · cases h
-  · rename_i ro hro
-    have hro' : VL ro.st = VL s := by
-      iterate 10 (try any_goals (split at hro))
-      all_goals first
-        | (cases hro; done)
-        | exact execEvm_vl _ _ _ _ hro
-        | exact execProposal_vl _ _ _ _ hro
-        | exact execVoting_vl _ _ _ _ hro
-        | exact execTransfer_vl _ _ _ _ hro
-        | exact execSetDoc_vl _ _ _ _ hro
-        | exact execStaking_vl _ _ _ _ _ hro
-        | exact execUnstaking_vl _ _ _ _ _ hro
-        | exact execWithdraw_vl _ _ _ _ _ hro
-    iterate 6 (try any_goals (split at h))
-    all_goals first
-      | (cases h; done)
-      | (cases h; exact hro')
+  dsimp only [bind] at h
+  by_cases c1 : tx.type = TRX_CONTRACT
+  · rw [if_pos c1] at h; run_tail; exact execEvm_vl _ _ _ _ hro
+  rw [if_neg c1] at h
+  by_cases c2 : tx.type = TRX_PROPOSAL
+  · rw [if_pos c2] at h; run_tail; exact execProposal_vl _ _ _ _ hro
+  rw [if_neg c2] at h
+  by_cases c3 : tx.type = TRX_VOTING
+  · rw [if_pos c3] at h; run_tail; exact execVoting_vl _ _ _ _ hro
+  rw [if_neg c3] at h
+  by_cases c4 : tx.type = TRX_TRANSFER
+  · rw [if_pos c4] at h; run_tail
+    split at hro
+    · exact execEvm_vl _ _ _ _ hro
+    · exact execTransfer_vl _ _ _ _ hro
+  rw [if_neg c4] at h
+  by_cases c5 : tx.type = TRX_SETDOC
+  · rw [if_pos c5] at h; run_tail; exact execSetDoc_vl _ _ _ _ hro
+  rw [if_neg c5] at h
+  by_cases c6 : tx.type = TRX_STAKING
+  · rw [if_pos c6] at h; run_tail; exact execStaking_vl _ _ _ _ _ hro
+  rw [if_neg c6] at h
+  by_cases c7 : tx.type = TRX_UNSTAKING
+  · rw [if_pos c7] at h; run_tail; exact execUnstaking_vl _ _ _ _ _ hro
+  rw [if_neg c7] at h
+  by_cases c8 : tx.type = TRX_WITHDRAW
+  · rw [if_pos c8] at h; run_tail; exact execWithdraw_vl _ _ _ _ _ hro
+  rw [if_neg c8] at h
+  cases h
 
 theorem handleTx_vl (s : St) (exec : Bool) (height : Int) (tx : TxIn) : VL (handleTx s exec height tx).1 = VL s := by
   unfold handleTx
